@@ -99,11 +99,20 @@ func zeros(n int, asBytes bool) []byte {
 type val struct {
 	Name string
 	Code []byte
+	Int  *big.Int // set for integer values
 }
 
-func ival(x *big.Int) val { return val{x.String(), pushB(x)} }
+func ival(x *big.Int) val { return val{x.String(), pushB(x), x} }
 
-func bval(d []byte) val { return val{fmt.Sprintf("bytes(%x)", d), pushD(d)} }
+func bval(d []byte) val { return val{Name: fmt.Sprintf("bytes(%x)", d), Code: pushD(d)} }
+
+// hugeCount: the implementation's RIGHT allocates its result before it checks
+// the count against the length of the string, so a count near 2^31 costs a
+// 2 GB allocation per run. Such programs are not run in parallel sweeps (OOM
+// guard); the limits section runs one of them on its own.
+func hugeCount(o byte, top val) bool {
+	return sv.Op(o) == sv.RIGHT && top.Int != nil && top.Int.IsInt64() && top.Int.Int64() > 1<<24 && top.Int.Int64() < 1<<31
+}
 
 func rep(b byte, n int) []byte { return []byte(strings.Repeat(string([]byte{b}), n)) }
 
@@ -141,26 +150,26 @@ func valuesV() []val {
 		bval(append(rep(0x00, 32), 0x01)), // 33 bytes, non-zero
 		bval([]byte("abcdef")),
 	)
-	v = append(v, val{"true", op(sv.PUSHT)}, val{"false", op(sv.PUSHF)}, val{"null", op(sv.PUSHNULL)})
+	v = append(v, val{Name: "true", Code: op(sv.PUSHT)}, val{Name: "false", Code: op(sv.PUSHF)}, val{Name: "null", Code: op(sv.PUSHNULL)})
 	return v
 }
 
 // valuesTyped adds one or more values of every other stack item type.
 func valuesTyped() []val {
 	return []val{
-		{"buffer()", pushBuf(nil)},
-		{"buffer(01)", pushBuf([]byte{1})},
-		{"buffer(abcdef)", pushBuf([]byte("abcdef"))},
-		{"buffer(32:-2^255)", pushBuf(append(rep(0, 31), 0x80))},
-		{"buffer(33)", pushBuf(rep(0, 33))},
-		{"array[]", op(sv.NEWARRAY0)},
-		{"array[1,2,3]", cat(pushI(3), pushI(2), pushI(1), pushI(3), op(sv.PACK))},
-		{"struct[]", op(sv.NEWSTRUCT0)},
-		{"struct[1,bytes(ab)]", cat(pushD([]byte("ab")), pushI(1), pushI(2), op(sv.PACKSTRUCT))},
-		{"map{}", op(sv.NEWMAP)},
-		{"map{1:2,bytes(01):3,true:4}", cat(pushI(4), op(sv.PUSHT), pushI(3), pushD([]byte{1}), pushI(2), pushI(1), pushI(3), op(sv.PACKMAP))},
-		{"pointer", op(sv.PUSHA, 0, 0, 0, 0)},
-		{"array[array[]]", cat(op(sv.NEWARRAY0), pushI(1), op(sv.PACK))},
+		{Name: "buffer()", Code: pushBuf(nil)},
+		{Name: "buffer(01)", Code: pushBuf([]byte{1})},
+		{Name: "buffer(abcdef)", Code: pushBuf([]byte("abcdef"))},
+		{Name: "buffer(32:-2^255)", Code: pushBuf(append(rep(0, 31), 0x80))},
+		{Name: "buffer(33)", Code: pushBuf(rep(0, 33))},
+		{Name: "array[]", Code: op(sv.NEWARRAY0)},
+		{Name: "array[1,2,3]", Code: cat(pushI(3), pushI(2), pushI(1), pushI(3), op(sv.PACK))},
+		{Name: "struct[]", Code: op(sv.NEWSTRUCT0)},
+		{Name: "struct[1,bytes(ab)]", Code: cat(pushD([]byte("ab")), pushI(1), pushI(2), op(sv.PACKSTRUCT))},
+		{Name: "map{}", Code: op(sv.NEWMAP)},
+		{Name: "map{1:2,bytes(01):3,true:4}", Code: cat(pushI(4), op(sv.PUSHT), pushI(3), pushD([]byte{1}), pushI(2), pushI(1), pushI(3), op(sv.PACKMAP))},
+		{Name: "pointer", Code: op(sv.PUSHA, 0, 0, 0, 0)},
+		{Name: "array[array[]]", Code: cat(op(sv.NEWARRAY0), pushI(1), op(sv.PACK))},
 	}
 }
 
@@ -179,7 +188,7 @@ func valuesTernary() []val {
 	return []val{
 		ival(bi(0)), ival(bi(1)), ival(bi(-1)), ival(bi(2)), ival(bi(-2)), ival(bi(3)), ival(bi(5)), ival(bi(6)), ival(bi(7)),
 		ival(p2(31)), ival(add(p2(255), -1)), ival(neg(p2(255))),
-		bval([]byte("abcdef")), {"buffer(abcdef)", pushBuf([]byte("abcdef"))},
+		bval([]byte("abcdef")), {Name: "buffer(abcdef)", Code: pushBuf([]byte("abcdef"))},
 	}
 }
 
@@ -187,18 +196,18 @@ func valuesTernary() []val {
 func valuesBig() []val {
 	const max = sv.MaxItemSize
 	return []val{
-		{"buffer(MaxSize-1)", zeros(max-1, false)},
-		{"buffer(MaxSize)", zeros(max, false)},
-		{"buffer(MaxSize+1)", zeros(max+1, false)}, // cannot be created
-		{"bytes(MaxSize)", zeros(max, true)},
-		{"bytes(65535)", zeros(65535, true)},
-		{"bytes(65536)", zeros(65536, true)},
-		{"bytes(65537)", zeros(65537, true)},
-		{"buffer(65536)", zeros(65536, false)},
+		{Name: "buffer(MaxSize-1)", Code: zeros(max-1, false)},
+		{Name: "buffer(MaxSize)", Code: zeros(max, false)},
+		{Name: "buffer(MaxSize+1)", Code: zeros(max+1, false)}, // cannot be created
+		{Name: "bytes(MaxSize)", Code: zeros(max, true)},
+		{Name: "bytes(65535)", Code: zeros(65535, true)},
+		{Name: "bytes(65536)", Code: zeros(65536, true)},
+		{Name: "bytes(65537)", Code: zeros(65537, true)},
+		{Name: "buffer(65536)", Code: zeros(65536, false)},
 		ival(bi(max - 1)), ival(bi(max)), ival(bi(max + 1)),
 		ival(bi(0)), ival(bi(1)), ival(bi(2)),
 		bval([]byte{}), bval([]byte{0}), bval([]byte{0, 0}),
-		{"buffer(01)", pushBuf([]byte{1})},
+		{Name: "buffer(01)", Code: pushBuf([]byte{1})},
 	}
 }
 
@@ -353,7 +362,7 @@ func sections(r *vk.Run) []section {
 	secs = append(secs, section{"binary", len(V2) * len(V2), func(j int, emit func(prog)) {
 		a, c := V2[j/len(V2)], V2[j%len(V2)]
 		for b := 0; b < 256; b++ {
-			if !sv.Defined(byte(b)) {
+			if !sv.Defined(byte(b)) || hugeCount(byte(b), c) {
 				continue
 			}
 			encs, tr := variants(byte(b))
@@ -382,8 +391,8 @@ func sections(r *vk.Run) []section {
 	}})
 	// MEMCPY has five operands: dst di src si n, with and without aliasing.
 	secs = append(secs, section{"memcpy", 1, func(_ int, emit func(prog)) {
-		dsts := []val{{"buffer(abcdef)", pushBuf([]byte("abcdef"))}, {"buffer()", pushBuf(nil)}, bval([]byte("abcdef"))}
-		srcs := []val{bval([]byte("uvwxyz")), {"buffer(uvw)", pushBuf([]byte("uvw"))}, ival(bi(0x010203)), {"<dst itself>", cat(pushI(2), op(sv.PICK))}, {"null", op(sv.PUSHNULL)}}
+		dsts := []val{{Name: "buffer(abcdef)", Code: pushBuf([]byte("abcdef"))}, {Name: "buffer()", Code: pushBuf(nil)}, bval([]byte("abcdef"))}
+		srcs := []val{bval([]byte("uvwxyz")), {Name: "buffer(uvw)", Code: pushBuf([]byte("uvw"))}, ival(bi(0x010203)), {Name: "<dst itself>", Code: cat(pushI(2), op(sv.PICK))}, {Name: "null", Code: op(sv.PUSHNULL)}}
 		for _, d := range dsts {
 			for _, di := range []int64{-1, 0, 1, 5, 6, 7} {
 				for _, s := range srcs {
@@ -436,9 +445,9 @@ func sections(r *vk.Run) []section {
 		switch {
 		case strings.HasPrefix(s.name, "compound"):
 			return 6
-		case s.name == "ternary":
-			return 7
 		case s.name == "binary":
+			return 7
+		case s.name == "ternary":
 			return 8
 		}
 		return 9
@@ -745,12 +754,12 @@ type cop struct {
 func compoundAlphabet() []cop {
 	o := func(x sv.Op) cop { return cop{x.Name(), op(x)} }
 	return []cop{
-		{"PUSH0", pushI(0)}, {"PUSH1", pushI(1)}, {"PUSH2", pushI(2)}, {"PUSHM1", pushI(-1)}, {"bytes(01)", pushD([]byte{1})}, {"PUSHT", op(sv.PUSHT)}, {"PUSHNULL", op(sv.PUSHNULL)},
+		{"PUSH0", pushI(0)}, {"PUSH1", pushI(1)}, {"PUSH2", pushI(2)}, {"PUSHM1", pushI(-1)}, {"bytes(01)", pushD([]byte{1})}, {Name: "PUSHT", Code: op(sv.PUSHT)}, {Name: "PUSHNULL", Code: op(sv.PUSHNULL)},
 		o(sv.DUP), o(sv.SWAP), o(sv.OVER), o(sv.DROP), o(sv.ROT),
 		o(sv.APPEND), o(sv.SETITEM), o(sv.PICKITEM), o(sv.REMOVE), o(sv.HASKEY), o(sv.SIZE), o(sv.KEYS), o(sv.VALUES),
 		o(sv.UNPACK), o(sv.PACK), o(sv.PACKSTRUCT), o(sv.PACKMAP), o(sv.REVERSEITEMS), o(sv.CLEARITEMS), o(sv.POPITEM),
 		o(sv.NEWARRAY0), o(sv.NEWSTRUCT0), o(sv.NEWMAP), o(sv.NEWARRAY), o(sv.NEWSTRUCT), o(sv.EQUAL),
-		{"CONVERT(Array)", convertTo(sv.TArray)}, {"CONVERT(Struct)", convertTo(sv.TStruct)}, {"ISTYPE(Struct)", op(sv.ISTYPE, byte(sv.TStruct))},
+		{"CONVERT(Array)", convertTo(sv.TArray)}, {"CONVERT(Struct)", convertTo(sv.TStruct)}, {Name: "ISTYPE(Struct)", Code: op(sv.ISTYPE, byte(sv.TStruct))},
 	}
 }
 
@@ -759,17 +768,17 @@ func compoundPrefixes() []val {
 	arr123 := cat(pushI(3), pushI(2), pushI(1), pushI(3), op(sv.PACK))
 	st12 := cat(pushI(2), pushI(1), pushI(2), op(sv.PACKSTRUCT))
 	return []val{
-		{"[a,a] a=[]", cat(op(sv.NEWARRAY0), op(sv.DUP))},
-		{"[a,a] a=[1,2,3]", cat(arr123, op(sv.DUP))},
-		{"[s,s] s=struct[1,2]", cat(st12, op(sv.DUP))},
+		{Name: "[a,a] a=[]", Code: cat(op(sv.NEWARRAY0), op(sv.DUP))},
+		{Name: "[a,a] a=[1,2,3]", Code: cat(arr123, op(sv.DUP))},
+		{Name: "[s,s] s=struct[1,2]", Code: cat(st12, op(sv.DUP))},
 		// a = [clone of s] (APPEND clones), s stays separate
-		{"[s,a] s=struct[1,2] a=[s']", cat(st12, op(sv.NEWARRAY0), op(sv.DUP), pushI(2), op(sv.PICK), op(sv.APPEND))},
+		{Name: "[s,a] s=struct[1,2] a=[s']", Code: cat(st12, op(sv.NEWARRAY0), op(sv.DUP), pushI(2), op(sv.PICK), op(sv.APPEND))},
 		// a = [s] without cloning (PACK does not clone): struct inside array, aliased
-		{"[s,a] s=struct[1,2] a=[s]", cat(st12, op(sv.DUP), pushI(1), op(sv.PACK))},
-		{"[m,m] m={1:10,bytes(01):11,true:12}", cat(pushI(12), op(sv.PUSHT), pushI(11), pushD([]byte{1}), pushI(10), pushI(1), pushI(3), op(sv.PACKMAP), op(sv.DUP))},
-		{"[b,b] b=buffer(010203)", cat(pushBuf([]byte{1, 2, 3}), op(sv.DUP))},
-		{"[a,m] m={1:a} a=[1,2,3]", cat(arr123, op(sv.DUP), pushI(1), pushI(1), op(sv.PACKMAP))},
-		{"[t,t] t=struct[struct[1,2],array[]]", cat(op(sv.NEWARRAY0), st12, pushI(2), op(sv.PACKSTRUCT), op(sv.DUP))},
+		{Name: "[s,a] s=struct[1,2] a=[s]", Code: cat(st12, op(sv.DUP), pushI(1), op(sv.PACK))},
+		{Name: "[m,m] m={1:10,bytes(01):11,true:12}", Code: cat(pushI(12), op(sv.PUSHT), pushI(11), pushD([]byte{1}), pushI(10), pushI(1), pushI(3), op(sv.PACKMAP), op(sv.DUP))},
+		{Name: "[b,b] b=buffer(010203)", Code: cat(pushBuf([]byte{1, 2, 3}), op(sv.DUP))},
+		{Name: "[a,m] m={1:a} a=[1,2,3]", Code: cat(arr123, op(sv.DUP), pushI(1), pushI(1), op(sv.PACKMAP))},
+		{Name: "[t,t] t=struct[struct[1,2],array[]]", Code: cat(op(sv.NEWARRAY0), st12, pushI(2), op(sv.PACKSTRUCT), op(sv.DUP))},
 	}
 }
 
@@ -882,6 +891,9 @@ func limitSection() section {
 			f := cat(op(sv.DUP), op(sv.JMPIFNOT, 5), op(sv.DEC), op(sv.CALL, 0xfc /* -4: back to f */), op(sv.RET))
 			e(fmt.Sprintf("recursion(%d)", n), pushI(n), op(sv.CALL, 3), op(sv.RET), f)
 		}
+		// RIGHT with the largest int32 count (the implementation allocates 2 GB
+		// before it rejects it: run here, alone)
+		e("RIGHT(bytes(abc),2^31-1)", pushD([]byte("abc")), pushI(1<<31-1), op(sv.RIGHT))
 		// endless recursion / endless pushing end by a limit, not by luck
 		e("CALL-self", op(sv.CALL, 0))
 		e("PUSH1,JMP-back", op(sv.PUSH1), op(sv.JMP, 0xff))
